@@ -23,6 +23,11 @@ TRANSPARENT = ('ExprWithCleanups', 'MaterializeTemporaryExpr', 'CXXBindTemporary
                'SubstNonTypeTemplateParmExpr', 'ParenExpr')
 
 
+def undecay(q):
+    """std::decay<T &>::type of a class type, printed unresolved inside a template argument list: it is T"""
+    return re.sub(r'(?:typename\s+)?std::decay<\s*([\w:]+)\s*&{0,2}\s*>::type', r'\1', q)
+
+
 def split_top(s, sep=','):
     out, depth, cur = [], 0, ''
     for ch in s:
@@ -109,6 +114,7 @@ class Emitter:
         """resolve a printed record type to a record decl (simple-name match among instantiated records)"""
         q0 = q
         q = re.sub(r'\b(const|volatile|struct|class)\b', '', q).strip()
+        q = undecay(q)
         if q.startswith('(lambda at '):
             c = self.tu.lambda_by_loc(q)
             if c is None:
@@ -186,6 +192,7 @@ class Emitter:
 
     def alias_target(self, q):
         """printed type that is a typedef / alias name -> the aliased type string (or None)"""
+        q = undecay(q)
         q = re.sub(r'\b(const|volatile|struct|class|typename)\b', '', q).strip()
         depth, base = 0, ''
         for ch in q:
@@ -203,6 +210,22 @@ class Emitter:
         targets.discard(None)
         if len(targets) == 1:
             return targets.pop()
+        if not targets and q.endswith('>') and '<' in q:
+            # alias TEMPLATE  name<args...> : substitute the arguments into the aliased type of the (unique) pattern
+            pats = [n for n in self.tu.byid.values() if n.get('kind') == 'TypeAliasTemplateDecl' and n.get('name') == simple]
+            args = split_top(q[q.index('<') + 1:-1])
+            outs = set()
+            for pat in pats:
+                parms = [c.get('name') for c in pat.get('inner', ()) if c.get('kind') == 'TemplateTypeParmDecl']
+                al = [c for c in pat.get('inner', ()) if c.get('kind') == 'TypeAliasDecl']
+                if len(parms) != len(args) or None in parms or len(al) != 1:
+                    continue
+                t = al[0]['type'].get('qualType')
+                for pn, a in zip(parms, args):
+                    t = re.sub(r'\b%s\b' % re.escape(pn), a.strip(), t)
+                outs.add(t)
+            if len(outs) == 1:
+                return outs.pop()
         if len(targets) > 1 and '::' in base:
             d, cut = 0, None
             for i in range(len(q) - 1, 0, -1):
@@ -318,7 +341,7 @@ class Emitter:
         return '%s %s' % (self.ctype_s(q), name)
 
     def ctype_s(self, q, ptr=False):
-        q = q.strip()
+        q = undecay(q.strip())
         q = re.sub(r'\b(const|__restrict|volatile|typename)\b', '', q).strip()
         q = re.sub(r'\s+', ' ', q)
         if q in BASE_TYPES:
@@ -580,14 +603,21 @@ class Emitter:
 
     def exc_exit(self):
         """statement text executed when __exc is set after a call"""
+        def unwind(d):
+            # destructors of stack unwinding run with the exception in flight set aside (a destructor's own callees test
+            # __exc for THEIR exceptions); one that throws itself during unwinding is std::terminate
+            if not d:
+                return ''
+            return ('{ int __unw = __exc; __exc = 0; %s if (__exc) __verif_stop("exception thrown during stack unwinding '
+                    '(std::terminate)"); __exc = __unw; }' % ' '.join(d))
         for sc in reversed(self.scopes):
             if sc.kind == 'try':
                 d = self.all_dtors(upto='try')
-                return '{ %s goto %s; }' % (' '.join(d), sc.label)
+                return '{ %s goto %s; }' % (unwind(d), sc.label)
         d = self.all_dtors()
         if not self.cur_may_throw:
             return '{ __verif_stop("exception leaves noexcept function (std::terminate)"); }'
-        return '{ %s %s }' % (' '.join(d), self.zero_return())
+        return '{ %s %s }' % (unwind(d), self.zero_return())
 
     def exc_check(self):
         self.need_exc = True
